@@ -37,6 +37,10 @@ def cpt_ack_octets(invoke, token, payload=b"forged"):
     return W.npci_build({"payload": W.apci_build({"type": W.COMPLEX_ACK, "invoke": invoke, "service": 18, "payload": body})})
 
 
+class HistoryEnded(Exception):
+    pass
+
+
 def history(run, rng, nclients, nservers, nreq, forged, chosen_ids=False, label="mixed"):
     CLOCK.reset()
     events = []
@@ -74,6 +78,10 @@ def history(run, rng, nclients, nservers, nreq, forged, chosen_ids=False, label=
             # a refusal must leave nothing on the wire for that token (checked below through the indications)
             reqs[token] = {"client": ci, "server": si, "invoke": req.apduInvokeID, "t_req": CLOCK.now, "refused": True, "rsize": rsize}
             return
+        except Exception as err:
+            # anything else than the documented refusal: the stack itself failed on a request it should have taken
+            run.violation("submission-raised/" + type(err).__name__, dict(wit, error=repr(err)[:100], requests_so_far=len(reqs)))
+            raise HistoryEnded()
         reqs[token] = {"client": ci, "server": si, "invoke": req.apduInvokeID, "t_req": CLOCK.now, "refused": False, "rsize": rsize}
 
     try:
@@ -106,6 +114,8 @@ def history(run, rng, nclients, nservers, nreq, forged, chosen_ids=False, label=
         CLOCK.drive(duration=80.0, max_steps=400000)
     except StepBudgetExceeded as err:
         run.violation("history-does-not-quiesce", dict(wit, error=str(err)))
+        return
+    except HistoryEnded:
         return
     # ------------------------------------------------------------------ monitors
     confs = {}
@@ -235,6 +245,7 @@ def iocb_history(run, rng, nclients, nservers, nreq):
     unconfirmed = 0
     abandoned = 0
     abandoned_active = 0
+    injected = []
     try:
         remaining = [nreq] * nclients
         while any(remaining):
@@ -244,7 +255,14 @@ def iocb_history(run, rng, nclients, nservers, nreq):
                 token += 1
                 si = rng.randrange(nservers)
                 servers[si].app.behaviour[token] = ("ack", rng.choice([0, 5, 50]), rng.choice([0, 0.3, 1.0, 2.0]))
-                iocb = c.send(c.cpt_request(servers[si].address, token, rng.choice([0, 5, 50])), token)
+                rq = c.cpt_request(servers[si].address, token, rng.choice([0, 5, 50]))
+                if rng.random() < 0.25:
+                    # the application chooses the invoke id itself (0 is an id like any other); ids in use are left alone
+                    used = {r_["iocb"].args[0].apduInvokeID for r_ in reqs.values() if r_["client"] == ci}
+                    free = [x for x in (0, 0, 1, 255, rng.randrange(256)) if x not in used]
+                    if free:
+                        rq.apduInvokeID = free[0]
+                iocb = c.send(rq, token)
                 reqs[token] = {"client": ci, "server": si, "t_req": CLOCK.now, "iocb": iocb}
                 remaining[ci] -= 1
             # the application gives up on a request that is still waiting in the queue of its peer (another one is in flight)
@@ -265,6 +283,15 @@ def iocb_history(run, rng, nclients, nservers, nreq):
                     reqs[t]["abandoned"] = "in-flight"
                     reqs[t]["iocb"].abort(RuntimeError("given up"))
                     abandoned_active += 1
+                    if rng.random() < 0.5 and reqs[t]["iocb"].args[0].apduInvokeID is not None:
+                        # ... and what comes back for it later is an acknowledgement that cannot be decoded
+                        bad = W.npci_build({"payload": W.apci_build({"type": W.COMPLEX_ACK, "invoke": reqs[t]["iocb"].args[0].apduInvokeID,
+                                                                     "service": 18, "payload": b"\x09\x01\x1a"})})
+                        CLOCK.drive(duration=rng.choice([0.0, 0.2]), max_steps=200000)
+                        injected.append((round(CLOCK.now - CLOCK.START, 2), reqs[t]["iocb"].args[0].apduInvokeID, reqs[t]["server"], ci))
+                        lan.inject(servers[reqs[t]["server"]].address, clients[reqs[t]["client"]].address, bad)
+                        CLOCK.settle()
+                        run.count("late_undecodable_acknowledgements_injected")
             # unconfirmed traffic of the same application toward the same (and other) peers
             for _ in range(rng.randrange(0, 3)):
                 dest = rng.choice(servers).address
@@ -299,7 +326,9 @@ def iocb_history(run, rng, nclients, nservers, nreq):
     for tok, r in reqs.items():
         cb = done.get(tok, [])
         run.count("iocb_completions_checked")
-        w = dict(wit, token=tok, completions=[(round(x["t"] - r["t_req"], 2), x["outcome"], x.get("answer_token")) for x in cb])
+        w = dict(wit, token=tok, completions=[(round(x["t"] - r["t_req"], 2), x["outcome"], x.get("answer_token")) for x in cb],
+                 invoke=r["iocb"].args[0].apduInvokeID, error=repr(r["iocb"].ioError)[:80], submitted_at=round(r["t_req"] - CLOCK.START, 2),
+                 answered_at=round(responded[tok] - CLOCK.START, 2) if tok in responded else None, injected=injected[:6])
         if len(cb) != 1:
             run.violation("iocb-completed-%s" % ("more-than-once" if cb else "never"), w)
             return
